@@ -57,7 +57,8 @@ RULE = (
     "session whose measured direction carries 800-1600 tiny pairwise different messages on ONE keyed Packetizer "
     "(thorough 3000-6000), optional second key exchange in the middle; concurrent senders (class concurrent-senders, "
     "threads:N): 2-3 real threads send 150-400 messages each through one keyed paramiko peer at the same time with a "
-    "generated interpreter switch interval, compression on in 3 of 4 cases, optional send script; oracle = both the "
+    "generated interpreter switch interval, compression on in 3 of 4 cases, send script in half of the cases (classes "
+    "concurrent-senders+send-partial / +send-notready); oracle = both the "
     "paramiko and the reference receiver deliver exactly the multiset of sent messages, each thread's messages in "
     "its own order (the interleaving itself is free); each session is run paramiko<->paramiko "
     "(+reference receivers on the same bytes) and reference "
@@ -299,7 +300,13 @@ def execute_concurrent(ctx, case):
     classes.append("switch-interval:%g" % case["switch"])
     if case["strict"]:
         classes.append("strict-kex")
-    classes += pktx.send_classes(stats)
+    sc = pktx.send_classes(stats)
+    classes += sc
+    # the combination "several sender threads + a socket that takes partial writes / is not ready" as evidence
+    if "send-partial" in sc:
+        classes.append("concurrent-senders+send-partial")
+    if "send-notready" in sc:
+        classes.append("concurrent-senders+send-notready")
     ctx.case(case, len(plans) >= 2 and all(len(p) >= 2 for p in plans), sorted(classes))
     if bad:
         ctx.violation(bad[0], bad[1], case, bad[2])
